@@ -105,12 +105,17 @@ def _run_from(binary, args, cases, start, budget, mem_bytes, errpath, env):
             p.wait()
 
 
-def supervise(binary, args, cases, workdir, name, budget=30, mem_bytes=4 << 30, env=None, max_restarts=5000):
+def supervise(binary, args, cases, workdir, name, budget=30, mem_bytes=4 << 30, env=None, max_restarts=5000,
+              family=None, max_bad_per_family=None):
     """cases: list of dicts with an "id".  Returns dict id -> {"outcome": ..., "msg": ..., "text": ...};
-    outcome is what the child reported ("value" / "error" / "unbound") or "crash" / "hang"."""
+    outcome is what the child reported ("value" / "error" / "unbound") or "crash" / "hang".
+    family(case) -> key and max_bad_per_family bound the time spent on a tree that is broken wholesale: once that many
+    cases of one family crashed or hung in this shard, the remaining cases of the family get outcome "skipped"."""
     results = {}
     start = 0
     restarts = 0
+    bad = {}
+    cases = list(cases)
     errpath = os.path.join(workdir, "%s.stderr" % name)
     while start < len(cases):
         out, at, why, text = _run_from(binary, args, cases, start, budget, mem_bytes, errpath, env)
@@ -129,6 +134,17 @@ def supervise(binary, args, cases, workdir, name, budget=30, mem_bytes=4 << 30, 
             results[cid] = {"id": cid, "outcome": "crash", "msg": text}
         start = at + 1
         restarts += 1
+        if family is not None and max_bad_per_family:
+            fam = family(cases[at])
+            bad[fam] = bad.get(fam, 0) + 1
+            if bad[fam] == max_bad_per_family:
+                keep = []
+                for c in cases[start:]:
+                    if family(c) == fam:
+                        results[c["id"]] = {"id": c["id"], "outcome": "skipped", "msg": "family %s: %d crashes/hangs already" % (fam, bad[fam])}
+                    else:
+                        keep.append(c)
+                cases = cases[:start] + keep
         if restarts > max_restarts:
             raise RuntimeError("too many child restarts (%d)" % restarts)
     return results
